@@ -254,14 +254,18 @@ def _run_one(obs, M, exact, as_tuple=False):
     from vf.common import call, is_crash
     from vf.oracles import assignment as oa
 
-    for minimize in (True, False):
+    # one matrix object for both calls (a caller solves "cheapest" and "dearest" on the same table): a solver that
+    # edits its argument in place shows up as a wrong answer of the second call.  The order alternates by case.
+    shared = tuple(tuple(r) for r in M) if as_tuple else [list(r) for r in M]
+    order = (True, False) if (len(M) + len(M[0]) if M and M[0] else 0) % 2 == 0 else (False, True)
+    for minimize in order:
         try:
             opt, how = oa.optimum(M, minimize)
         except AssertionError as e:
             obs.inconc(str(e))
             return
         obs.event("oracle." + how)
-        arg = tuple(tuple(r) for r in M) if as_tuple else [list(r) for r in M]
+        arg = shared
         if minimize:
             res = call(obs, _h.solve_hungarian, arg, budget=BUDGET, what="solve_hungarian[min]")
         else:
